@@ -258,7 +258,7 @@ pub fn run(ctx: &Ctx) -> Outcome {
                 let _ = acc.take_hooks();
                 if let Some((api, want, got)) = reference_groups(&res[0], r, *ng, t) {
                     let h = acc.take_hooks();
-                    if h.aux_mismatch > 0 && ctx.known.listed("C15", "FJ") {
+                    if h.aux_mismatch > 0 && p.has_cond() && ctx.known.listed("C15", "FJ") {
                         acc.count("reference-groups:attributed-to-FJ");
                     } else {
                         acc.violate(Violation::new("C11", "replacer-sees-reference-captures", &s, t, 0, &api, want, got));
